@@ -17,7 +17,7 @@
 
 use crate::ArrayData;
 use crate::data::count_nulls;
-use crate::equal::equal_values;
+use crate::equal::equal_range;
 use arrow_buffer::ArrowNativeType;
 use num_integer::Integer;
 
@@ -66,8 +66,8 @@ pub(super) fn list_view_equal<T: ArrowNativeType + Integer>(
             let rhs_offset = rhs_offset.to_usize().unwrap();
             let size = size.to_usize().unwrap();
 
-            // Check if offsets are valid for the given range
-            if !equal_values(lhs_data, rhs_data, lhs_offset, rhs_offset, size) {
+            // Compare the child ranges, including their validity
+            if !equal_range(lhs_data, rhs_data, lhs_offset, rhs_offset, size) {
                 return false;
             }
         }
@@ -77,10 +77,11 @@ pub(super) fn list_view_equal<T: ArrowNativeType + Integer>(
         let rhs_nulls = rhs.nulls().unwrap().slice(rhs_start, len);
 
         // Check values for equality, with null checking
-        for (index, ((&lhs_offset, &rhs_offset), &size)) in lhs_range_offsets
+        for (index, (((&lhs_offset, &rhs_offset), &size), &rhs_size)) in lhs_range_offsets
             .iter()
             .zip(rhs_range_offsets)
             .zip(lhs_range_sizes)
+            .zip(rhs_range_sizes)
             .enumerate()
         {
             let lhs_is_null = lhs_nulls.is_null(index);
@@ -90,12 +91,17 @@ pub(super) fn list_view_equal<T: ArrowNativeType + Integer>(
                 return false;
             }
 
+            // valid lists must have the same size (sizes under nulls are arbitrary)
+            if !lhs_is_null && size != rhs_size {
+                return false;
+            }
+
             let lhs_offset = lhs_offset.to_usize().unwrap();
             let rhs_offset = rhs_offset.to_usize().unwrap();
             let size = size.to_usize().unwrap();
 
             // Check if values match in the range
-            if !lhs_is_null && !equal_values(lhs_data, rhs_data, lhs_offset, rhs_offset, size) {
+            if !lhs_is_null && !equal_range(lhs_data, rhs_data, lhs_offset, rhs_offset, size) {
                 return false;
             }
         }
